@@ -474,10 +474,10 @@ Proof.
   apply andb_true_iff. split; [apply N.eqb_refl|apply N.ltb_lt; assumption].
 Qed.
 
-Definition tx_pages (s : st) (frames : list (N * pg)) : list (N * pg) :=
-  filter (fun kv => negb (fst kv =? lockpg s)) (sort_pages (last_versions frames []) []).
-Definition tx_new (s : st) (frames : list (N * pg)) : list (N * N) :=
-  map (fun kv => (fst kv, pg_h (snd kv))) (tx_pages s frames).
+Definition tx_pages (s : st) (frames : list (N * pg)) (commit : N) : list (N * pg) :=
+  filter (fun kv => negb (fst kv =? lockpg s) && (fst kv <=? commit)) (sort_pages (last_versions frames []) []).
+Definition tx_new (s : st) (frames : list (N * pg)) (commit : N) : list (N * N) :=
+  map (fun kv => (fst kv, pg_h (snd kv))) (tx_pages s frames commit).
 
 (* CommitWAL: the reported checksum is the from-scratch XOR, over pages 1..commit, of: the page's
    checksum in this transaction if it wrote the page, else its last committed WAL version, else the
@@ -485,11 +485,11 @@ Definition tx_new (s : st) (frames : list (N * pg)) : list (N * N) :=
 Theorem commit_wal_checksum s frames commit s' :
   CacheOK s -> LockZero s -> (forall p, pageN s < p -> dbc s p = 0) ->
   op_commit_wal s frames commit = (Done, s') ->
-  chk s' = scratch (eff s commit (tx_new s frames)) commit /\
+  chk s' = scratch (eff s commit (tx_new s frames commit)) commit /\
   txid s' = txid s + 1 /\ pageN s' = commit /\ CacheOK s' /\ (forall p, dbc s' p = dbc s p).
 Proof.
-  intros HC HL HT H. unfold op_commit_wal in H. fold (tx_pages s frames) in H. fold (tx_new s frames) in H.
-  destruct (truncated_pages s (commit + 1) (N.to_nat (pageN s)) (tx_new s frames)) as [new|] eqn:Etr; [|discriminate].
+  intros HC HL HT H. unfold op_commit_wal in H. fold (tx_pages s frames commit) in H. fold (tx_new s frames commit) in H.
+  destruct (truncated_pages s (commit + 1) (N.to_nat (pageN s)) (tx_new s frames commit)) as [new|] eqn:Etr; [|discriminate].
   destruct (truncated_pages_spec s _ _ _ _ Etr) as [T1 T2].
   pose proof (checksum_same s commit new) as HS. pose proof (checksum_cacheok s commit new HC) as HC2.
   destruct (checksum s commit new) as [[post|] s1] eqn:Eck; [|discriminate]. cbn [snd] in HS, HC2.
